@@ -80,6 +80,8 @@ def stream_specs(n, bs):
     yield "stream-seek-raises", ["stream", False, "raises", "ok", min(1, n), b(mid)]
     yield "stream-tell-no-seek", ["stream", False, "absent", "ok", 0, b(mid)]
     yield "textstream-no-tell", ["stream", True, "ok", "absent", 0, cut(t, mid)]
+    yield "textstream-utf16-short-first", ["stream", True, "ok", "ok", 0, cut(t, [1, bs]), "utf-16"]
+    yield "textstream-cp1252-all-short", ["stream", True, "ok", "ok", 0, cut(t, [max(bs - 1, 1)]), "cp1252"]
 
 
 def random_stream(rng, n, bs):
@@ -119,6 +121,12 @@ def body_specs(n, bs=16):
     yield "file-seek-raises", ["file", False, "raises", "ok", min(1, n), hx(d)]
     yield "file-tell-no-seek", ["file", False, "absent", "ok", 0, hx(d)]
     yield "textfile-no-tell", ["file", True, "ok", "absent", 0, t]
+    # text files stored in (and announcing) another encoding than UTF-8, as `open(path, encoding=...)` gives them:
+    # what they deliver is their characters, what goes on the wire is the UTF-8 of those (7th item: the encoding)
+    yield "textfile-utf16@0", ["file", True, "ok", "ok", 0, t, "utf-16"]
+    yield f"textfile-cp1252@{min(1, n)}", ["file", True, "ok", "ok", min(1, n), t, "cp1252"]
+    yield "textfile-cp1252-no-tell", ["file", True, "ok", "absent", 0, t, "cp1252"]
+    yield "textfile-utf16-no-seek", ["file", True, "absent", "ok", 0, t, "utf-16"]
     yield "list", ["iter", False, [["b", hx(d[:3])], ["b", ""], ["b", hx(d[3:])]]]
     yield "list-str", ["iter", False, [["s", t[:2]], ["s", ""], ["s", t[2:]]]]
     yield "list-mixed", ["iter", False, [["b", hx(d[:1])], ["s", t[:n // 2]], ["u", 1, hx(d)]]]
@@ -178,7 +186,8 @@ class C11(Prop):
             "non-trivial = a body is present and (for histories) at least two attempts reached the wire")
     assumptions = ["every scripted response carries Connection: close, so each attempt opens a new socket and per-attempt "
                    "bytes are per-socket bytes",
-                   "Retry(total=10, allowed_methods=None, status_forcelist=[503], backoff_factor=0): the retry policy is "
+                   "Retry(allowed_methods=None, status_forcelist=[503], backoff_factor=0) with the budget granted as total=10, as "
+                   "per-category counters only (total=None) or both: the retry policy is "
                    "C04's subject; here it is configured so that the scripted history happens",
                    "redirect Location is the same origin-form target"]
     trusted = ["http.client request path is modelled, validated by this correspondence",
@@ -219,6 +228,7 @@ class C11(Prop):
                         n += 1
                         yield {"level": level, "meth": ["POST", "PUT", "PATCH", "DELETE", "FOO"][n % 5], "body": spec,
                                "label": label, "chunked": bool(n % 7 == 0), "bs": bs, "hist": h,
+                               "retry": ["total", "cat", "both", "cat"][(n // 2) % 4],
                                "headers": [["Content-Type", "x/y"], ["X-A", "b"]] if n % 2 else [], "size": size}
         # 3. default blocksize boundaries
         big = 16384
@@ -244,6 +254,7 @@ class C11(Prop):
             h = "o" if level == "conn" else rng.choice(hists)
             yield {"level": level, "meth": rng.choice(METHODS[:-1] if level != "conn" else METHODS), "body": spec,
                    "label": label, "chunked": rng.random() < 0.4, "bs": rbs, "hist": h,
+                   "retry": rng.choice(["total", "cat", "both"]),
                    "headers": rng.choice([[], [["Content-Type", "a/b"]], [["X-A", "1"], ["Content-Language", "en"]]]),
                    "size": size}
 
@@ -297,7 +308,18 @@ class C11(Prop):
         net.connect_hook = on_connect
 
         err = None
-        retry = Retry(total=10, allowed_methods=None, status_forcelist=[503], backoff_factor=0)
+        # the budget is C04's subject; here three ways of granting enough of it for the scripted history to happen:
+        # one total, per-category counters only (`total=None`), both
+        rk = case.get("retry", "total")
+        if rk == "cat":
+            retry = Retry(total=None, connect=6, read=6, status=6, redirect=6, other=6, allowed_methods=None,
+                          status_forcelist=[503], backoff_factor=0)
+        elif rk == "both":
+            retry = Retry(total=10, connect=6, read=6, status=6, redirect=6, allowed_methods=None,
+                          status_forcelist=[503], backoff_factor=0)
+        else:
+            retry = Retry(total=10, allowed_methods=None, status_forcelist=[503], backoff_factor=0)
+        res.bump("retry:" + rk)
         with net.installed():
             try:
                 if level == "conn":
